@@ -25,6 +25,27 @@ T = {
    needs="a forged per_commitment_secret in the 3rd (5th, ...) revoke_and_ack of a channel",
    checks={"tools/rehearse.sh seedrun C05 seeded/C05-a/patch.diff quick": "exit 1, VIOLATION lines (tamper profile: a tampered revoke_and_ack was accepted and a commitment_secret step persisted)"},
    detected=["C05"]),
+ "C01-b": dict(property="C01",
+   what="FundedChannel::free_holding_cell_htlcs: the held update_fee is released before the held HTLC adds, so its affordability check does not see them: the funder sends update_add + update_fee + commitment_signed for a commitment whose fee it cannot pay; the peer answers 'Funding remote cannot afford proposed new fee' and force-closes",
+   needs="funder waiting for a revoke_and_ack with both a > 2x fee increase and an HTLC near its reported limit parked in the holding cell",
+   checks={"tools/rehearse.sh seedrun C01 seeded/C01-b/patch.diff quick (first version)": "exit 0 -- MISSED (random schedules rarely park a fee update and a limit-sized HTLC together)",
+           "same, after adding the `holdcell` schedule family": "exit 1, VIOLATION lines (guard group C01: error message / force_closed monitor step on honest traffic)"},
+   detected=["C01 (after strengthening)"]),
+ "C01-c": dict(property="C01",
+   what="ChannelContext::validate_update_add_htlc counts the receiver's own not-yet-acknowledged and holding-cell HTLCs (include_counterparty_unknown_htlcs = true): an add inside the sender's reported limit is rejected with 'Remote HTLC add would put them under remote reserve value' and the channel is force-closed",
+   needs="crossing traffic: the fundee has >= 2 (anchors) / ~8 (static) non-dust HTLCs the funder has not seen when the funder sends exactly next_outbound_htlc_limit_msat",
+   checks={"tools/rehearse.sh seedrun C01 seeded/C01-c/patch.diff quick (first version, and with `holdcell`)": "exit 0 -- MISSED",
+           "crosslimit scripts (k crossing HTLCs x boundary amount x funder balance classes) on a scratch copy with the patch": "rejected at the force_closed monitor step / error message (run 48 of 400); same scripts accepted on the unchanged tree"},
+   detected=["C01 (after strengthening)"]),
+ "C10-b": dict(property="C10",
+   what="OutboundPayments::fail_htlc attaches the ReleasePaymentComplete completion action to PaymentPathFailed instead of the terminal PaymentFailed",
+   needs="an outbound HTLC failed ON CHAIN on a closed channel, the user's handler answering ReplayEvent for PaymentFailed, a crash before the manager is written again",
+   checks={}, detected=[]),
+ "C10-c": dict(property="C10",
+   what="ChannelManager::from_channel_manager_data: the stale-manager force-close path no longer fails back ShutdownResult::dropped_outbound_htlcs (HTLCs that sat in the closed channel's holding cell)",
+   needs="a forward waiting in the outbound channel's holding cell when the manager is written, a later monitor update on that channel that does not free the holding cell, a crash",
+   checks={"tools/rehearse.sh seedrun C10 seeded/C10-c/patch.diff quick, with the `stalehold` schedule family": "exit 1, VIOLATION lines (guard group C10 at the final projection: an HTLC pending at the crash never resolves)"},
+   detected=["C10 (after strengthening)"]),
  "C07-1": dict(property="C07",
    what="ChannelMonitorImpl::provide_payment_preimage: a claim generated for a counterparty commitment with < 6 confirmations records the current height as the outpoint's creation height; a reorg of the tip only then drops the claim for good",
    needs="counterparty commitment confirmed, 1-4 blocks, preimage arrives, claim broadcast but not mined, reorg of the tip that leaves the commitment confirmed",
